@@ -114,6 +114,21 @@ class SymRange(SV):
         self.lo, self.hi = lo, hi
 
 
+class SymEnumerate(SV):
+    __slots__ = ('seq', 'start')
+
+    def __init__(self, seq, start):
+        self.seq, self.start = seq, start
+
+
+class SymStar(SV):
+    """*args of symbolic length at a call site (only trusted models accept it)"""
+    __slots__ = ('seq',)
+
+    def __init__(self, seq):
+        self.seq = seq
+
+
 class Obj:
     """Heap object with identity."""
     __slots__ = ('oid', 'cls', 'schema')
